@@ -43,7 +43,11 @@ def audit(m, tier):
             res["checks"][prop] = {"exit": c.returncode, "violations": sum(1 for l in c.stdout.splitlines() if l.startswith("VIOLATION")), "first": sigs[:2], "wall": round(time.time() - t0, 1)}
             if c.returncode not in (0, 1):
                 res["checks"][prop]["tail"] = (c.stdout + c.stderr)[-400:]
-        res["status"] = "caught" if any(v["exit"] == 1 and v["violations"] > 0 for v in res["checks"].values()) else "MISSED"
+        hit = any(v["exit"] == 1 and v["violations"] > 0 for v in res["checks"].values())
+        if m.get("equivalent"):  # behaviour-preserving rewrite: any alarm would be a false alarm
+            res["status"] = "FALSE-ALARM" if hit or any(v["exit"] != 0 for v in res["checks"].values()) else "caught-nothing-as-expected (equivalent rewrite)"
+        else:
+            res["status"] = "caught" if hit else "MISSED"
         if not tests_pass:
             res["status"] += " (but repo tests fail: " + t.stdout.strip().splitlines()[-1][:80] + ")"
         return res
@@ -65,7 +69,7 @@ def main():
         r = audit(m, tier)
         print(json.dumps(r))
         sys.stdout.flush()
-        if not r["status"].startswith("caught"):
+        if not r["status"].startswith("caught"):  # MISSED or FALSE-ALARM
             missed += 1
     print(f"AUDIT mutants={len(mutants)} not-caught={missed}")
 
